@@ -272,9 +272,24 @@ func ruleGCCountdown(c *Ctx) {
 	// every decision on the indirect counts is taken after the count-down traversal
 	{
 		var firstTrav ssa.Instruction
+		containsTrav := func(g *ssa.Function) bool {
+			for _, h := range p.withHelpers(g) {
+				for _, call := range callsIn(h) {
+					if _, ok := isCallTo(call, trav); ok {
+						return true
+					}
+				}
+			}
+			return false
+		}
 		for _, call := range callsIn(fn) {
-			if _, ok := isCallTo(call, trav); ok && firstTrav == nil {
+			if firstTrav != nil {
+				break
+			}
+			if _, ok := isCallTo(call, trav); ok {
 				firstTrav = call
+			} else if sf := call.Common().StaticCallee(); sf != nil && p.isRepoFn(sf) && sf != fn && sf.Pkg == fn.Pkg && containsTrav(sf) {
+				firstTrav = call // the count-down lives in a helper
 			}
 		}
 		for _, g := range p.withHelpers(fn) {
